@@ -15,7 +15,9 @@
       `inv_reachable`.  A rewind to a block WITHOUT state is proved to break the property on a concrete history
       (`setHead_stateless_witness`): known finding `setHead-stateless-leaves-index`, reproduced on the real code;
     * after a rewind has orphaned side-chain blocks, `reorg` may return "invalid new chain": `inv_reachable` covers the
-      histories in which that error is not returned (`Admissible`), and it is proved impossible without a rewind.
+      histories in which that error is not returned (`Admissible`), and it is proved impossible without a rewind;
+    * no import ever reaches a nil dereference (`insertChain_never_panics`, `hinv_insertHeaderChain`): the two crashes
+      found earlier are fixed in /repo (7235ac1, 2ee9efd) and the header-chain theorems need no side condition.
 -/
 import Aqv.Lemmas.ChainHist
 import Aqv.Lemmas.ChainHdr
@@ -136,16 +138,23 @@ theorem setHead_stateless_witness :
   revert this
   decide
 
-/-- Known finding `import-orphan-pruned-ancestor-panic` (reproduced): after a restart and a rewind that removed the
-    lower part of a stored side chain, importing a child of that side chain walks into the missing ancestor
-    (`parent.Root()` on a nil block in the ErrPrunedAncestor branch). -/
-theorem import_orphan_panics_witness :
+/-- `InsertChain` never reaches a nil dereference, whatever rewinds left behind (fix 7235ac1) -/
+theorem insertChain_never_panics (W : World U) {s : St} (h : Inv U s) (chain : List Blk)
+    (hU : ∀ b ∈ chain, U b.id = some b) (coins : List (List Bool)) :
+    (importChain s chain coins).1.err ≠ some .modelPanic := importChain_no_panic W h chain hU coins
+
+/-- Formerly finding `insertchain-pruned-orphan-nil-deref`, fixed by 7235ac1: after a restart and a rewind that removed
+    the lower part of a stored side chain, importing a child of that side chain used to walk into the missing ancestor
+    (`parent.Root()` on nil).  Now the import is refused with ErrUnknownAncestor and nothing changes. -/
+theorem import_orphan_refused_witness :
     let o1 : Blk := ⟨8, 1, 2, 5, []⟩       -- side chain o1–o2 on top of a1, lighter than a1–a2–a3
     let o2 : Blk := ⟨9, 8, 3, 5, []⟩
     let o3 : Blk := ⟨10, 9, 4, 5, []⟩
     let s := run (init g false) [.insert [a1, a2, a3] [], .insert [o1, o2] [], .reopen, .setHead 0]
     -- the rewind removed a1..a3; o1, o2 stay behind without state and without their ancestor a1
-    s.head = 0 ∧ (s.store 8).isSome = true ∧ s.store 1 = none ∧ (importOne s o3 []).err = some .modelPanic := by
+    let r := importOne s o3 []
+    s.head = 0 ∧ (s.store 8).isSome = true ∧ s.store 1 = none ∧
+      r.err = some .unknownAncestor ∧ r.st.head = 0 ∧ r.st.canon 1 = none ∧ r.st.store 10 = none ∧ r.st.td 10 = none := by
   decide
 
 /-! ### header-first imports (`InsertHeaderChain` / `SetHead` on a chain without blocks) -/
@@ -155,13 +164,21 @@ theorem hinv_init (g : Blk) (hgU : U g.id = some g) (hg0 : g.number = 0) : HInv 
 
 /-- `HeaderChain.WriteHeader`: deletion of the numbers above, the backwards loop over stale assignments, either coin -/
 theorem hinv_writeHeader (W : World U) {s : HSt} (h : HInv U s) {hd p : Blk} (hU : U hd.id = some hd)
-    (hpar : parentOf s.store hd = some p) (coin : Bool) (hok : (writeHeader s hd coin).err ≠ some .modelPanic) :
-    HInv U (writeHeader s hd coin).st := (Aqv.Chain.hinv_writeHeader W h hU hpar coin hok).1
+    (hpar : parentOf s.store hd = some p) (coin : Bool) :
+    HInv U (writeHeader s hd coin).st ∧ (writeHeader s hd coin).err ≠ some .modelPanic :=
+  ⟨(Aqv.Chain.hinv_writeHeader W h hU hpar coin).1, (Aqv.Chain.hinv_writeHeader W h hU hpar coin).2.1⟩
 
+/-- a refused header (fix 2ee9efd: hole in its stored ancestry) leaves the number index and the header head untouched -/
+theorem writeHeader_refusal_keeps_index (W : World U) {s : HSt} (h : HInv U s) {hd p : Blk} (hU : U hd.id = some hd)
+    (hpar : parentOf s.store hd = some p) (coin : Bool) (herr : (writeHeader s hd coin).err ≠ none) :
+    (writeHeader s hd coin).st.canon = s.canon ∧ (writeHeader s hd coin).st.hhead = s.hhead :=
+  writeHeader_refusal W h hU hpar coin herr
+
+/-- `InsertHeaderChain` of any batch: invariant kept, never a crash -/
 theorem hinv_insertHeaderChain (W : World U) {s : HSt} (h : HInv U s) (chain : List Blk)
-    (hU : ∀ x ∈ chain, U x.id = some x) (coins : List Bool)
-    (hok : (hImportChain s chain coins).1.err ≠ some .modelPanic) : HInv U (hImportChain s chain coins).1.st :=
-  (hstep_importChain W h chain hU coins hok).inv
+    (hU : ∀ x ∈ chain, U x.id = some x) (coins : List Bool) :
+    HInv U (hImportChain s chain coins).1.st ∧ (hImportChain s chain coins).1.err ≠ some .modelPanic :=
+  ⟨(hstep_importChain W h chain hU coins).inv, (hstep_importChain W h chain hU coins).noPanic⟩
 
 theorem hinv_setHead (W : World U) {s : HSt} (h : HInv U s) (n : Nat) : HInv U (hSetHead s n).st :=
   Aqv.Chain.hinv_setHead W h n
@@ -179,17 +196,18 @@ example :
     let s := hrun (hinit g) [.insert [a1, a2, a3] [], .insert [b1, b2] []]
     s.hhead = 5 ∧ s.canon 1 = some 4 ∧ s.canon 2 = some 5 ∧ s.canon 3 = none := by decide
 
-/-- Known finding `writeheader-orphan-nil-deref` (reproduced): after `SetHead(0)` the side headers o1, o2 stay behind
-    without their ancestor a1; writing the header o3 on top of them walks into the missing header and crashes AFTER
-    having rewritten part of the number index (heights 3 and 2 now map to the orphans, height 1 to the deleted a1). -/
-theorem writeHeader_orphan_witness :
+/-- Formerly finding `writeheader-orphan-nil-deref`, fixed by 2ee9efd: after `SetHead(0)` the side headers o1, o2 stay
+    behind without their ancestor a1; writing the header o3 on top of them used to crash after rewriting part of the
+    number index.  Now it is refused with ErrUnknownAncestor: the header and its td are stored, the index and the
+    header head are untouched. -/
+theorem writeHeader_orphan_refused_witness :
     let o1 : Blk := ⟨8, 1, 2, 5, []⟩
     let o2 : Blk := ⟨9, 8, 3, 5, []⟩
     let o3 : Blk := ⟨10, 9, 4, 5, []⟩
     let s := hrun (hinit g) [.insert [a1, a2, a3] [], .insert [o1, o2] [], .setHead 0]
     let r := (hImportChain s [o3] []).1
-    s.hhead = 0 ∧ s.store 1 = none ∧ r.err = some .modelPanic ∧ r.st.canon 3 = some 9 ∧ r.st.canon 1 = some 1 ∧
-      r.st.hhead = 0 := by
+    s.hhead = 0 ∧ s.store 1 = none ∧ r.err = some .unknownAncestor ∧ (r.st.store 10).isSome = true ∧
+      r.st.canon 1 = none ∧ r.st.canon 2 = none ∧ r.st.canon 3 = none ∧ r.st.canon 4 = none ∧ r.st.hhead = 0 := by
   decide
 
 end Aqv.Props.C03
